@@ -66,8 +66,23 @@ const (
 
 // c13Round runs one round on an authorizer and returns the observation.
 func c13Round(a biscuit.Authorizer, c c13Content, action int) string {
-	hx.Load(a, c.blk, c.pol)
 	var obs []string
+	// actions 4..7: the round's content arrives as a snapshot (SerializePolicies on a scratch
+	// authorizer, LoadPolicies here) instead of through the Add* methods
+	if action >= c13NActions {
+		action -= c13NActions
+		scratch, _ := biscuit.NewVerifier(a.Biscuit(), hx.LongLimits)
+		hx.Load(scratch, c.blk, c.pol)
+		snap, err := scratch.SerializePolicies()
+		if err != nil {
+			return "snapshot-error: " + err.Error()
+		}
+		if err := a.LoadPolicies(snap); err != nil {
+			obs = append(obs, "load-error")
+		}
+	} else {
+		hx.Load(a, c.blk, c.pol)
+	}
 	panel := func() {
 		for _, qr := range c13Panel {
 			ks, err := hx.QuerySet(a, qr)
@@ -103,7 +118,8 @@ func init() {
 		Spaces: func(c *sup.Ctx) []*sup.Space {
 			mk := func(name string, rounds int, contents []c13Content) *sup.Space {
 				c13Contents := contents
-				per := int64(len(contents)) * c13NActions
+				const nact = c13NActions * 2 // direct, and via a snapshot
+				per := int64(len(contents)) * nact
 				size := int64(len(c13Tokens))
 				for r := 0; r < rounds; r++ {
 					size *= per
@@ -113,7 +129,7 @@ func init() {
 					for r := 0; r < rounds; r++ {
 						k := i % per
 						i /= per
-						hist = append(hist, [2]int{int(k / c13NActions), int(k % c13NActions)})
+						hist = append(hist, [2]int{int(k / nact), int(k % nact)})
 					}
 					// hist[0] is the LAST round (varies fastest), so a token's fresh observations are cacheable
 					tk := c13Tokens[i]
@@ -130,7 +146,7 @@ func init() {
 						h := hist[r]
 						last = c13Round(a, c13Contents[h[0]], h[1])
 						a.Reset()
-						desc = append(desc, fmt.Sprintf("round(content=%s policies=%v action=%s)", c13Contents[h[0]].blk, c13Contents[h[0]].pol, []string{"Authorize", "Query", "Query;Authorize", "nothing"}[h[1]]))
+						desc = append(desc, fmt.Sprintf("round(content=%s policies=%v action=%s)", c13Contents[h[0]].blk, c13Contents[h[0]].pol, []string{"Authorize", "Query", "Query;Authorize", "nothing", "LoadPolicies(snapshot);Authorize", "LoadPolicies(snapshot);Query", "LoadPolicies(snapshot);Query;Authorize", "LoadPolicies(snapshot)"}[h[1]]))
 						w.Stats().Transitions++
 					}
 					w.Stats().States++
@@ -145,15 +161,19 @@ func init() {
 						return
 					}
 					cls := strings.SplitN(want, " ", 2)[0]
-					if hist[0][1] == c13Query {
+					switch hist[0][1] % c13NActions {
+					case c13Query:
 						cls = "query-only"
-					} else if hist[0][1] == c13QueryAuthorize {
+					case c13QueryAuthorize:
 						cls = "query-then-authorize"
-					} else if hist[0][1] == c13None {
+					case c13None:
 						cls = "no-evaluation"
 					}
 					if strings.HasPrefix(cls, "other-failure") {
 						cls = "other-failure"
+					}
+					if hist[0][1] >= c13NActions {
+						cls = "via-snapshot:" + cls
 					}
 					w.Class(cls)
 					differs := false
@@ -176,11 +196,11 @@ func init() {
 			} else {
 				var sub []c13Content
 				for i, x := range c13Contents {
-					if i%4 == 0 || i%8 == 7 {
+					if i%8 == 0 || i == 7 || i == 21 {
 						sub = append(sub, x)
 					}
 				}
-				sp = append(sp, mk("three-rounds-12-contents", 3, sub))
+				sp = append(sp, mk("three-rounds-6-contents", 3, sub))
 			}
 			// also: Reset twice, and Reset before any use
 			return sp
